@@ -573,15 +573,87 @@ def splice_function(src_text, spec, log, where):
 # template processing
 # ----------------------------------------------------------------------------
 
+ITEM_START = {'proof', 'spec', 'fn', 'pub', 'impl', 'broadcast', 'open', 'closed', 'exec', 'struct', 'enum', 'mod', 'use', 'type',
+              'const', 'trait', 'uninterp', 'global', 'verus', 'static'}
+
+
+def import_lemmas(text, home):
+    """`//@@ import file`: include a prelude whose lemmas are PROVED in another unit (the one that `include`s the same file):
+    every `proof fn` keeps its statement (requires/ensures) and loses its body, marked external_body + `imported-lemma`.
+    This is modular verification at the lemma level; the home unit re-proves the identical text on every run."""
+    toks = lex(text)
+    sig = sig_tokens(toks)
+    cuts = []
+    i = 0
+    n = len(sig)
+    while i < n:
+        t = sig[i]
+        if t.kind == 'ident' and t.text == 'proof' and i + 1 < n and sig[i + 1].text == 'fn':
+            # start of item: include preceding `pub`, `broadcast`, `pub(crate)`
+            start = i
+            while start > 0 and sig[start - 1].kind == 'ident' and sig[start - 1].text in ('pub', 'broadcast', 'open', 'closed'):
+                start -= 1
+            # skip to parameter list
+            k = i + 2
+            while k < n and sig[k].text != '(':
+                if sig[k].text == '<':
+                    depth = 0
+                    while k < n:
+                        if sig[k].text == '<':
+                            depth += 1
+                        elif sig[k].text == '>':
+                            depth -= 1
+                            if depth == 0:
+                                break
+                        k += 1
+                k += 1
+            k = match_close(sig, k) + 1
+            body = None
+            while k < n:
+                if sig[k].text in ('(', '['):
+                    k = match_close(sig, k) + 1
+                    continue
+                if sig[k].text == '{':
+                    e = match_close(sig, k)
+                    nxt = sig[e + 1] if e + 1 < n else None
+                    if nxt is None or nxt.text == '}' or nxt.text == '#' or (nxt.kind == 'ident' and nxt.text in ITEM_START):
+                        body = (k, e)
+                        break
+                    k = e + 1
+                    continue
+                if sig[k].text == ';':
+                    break
+                k += 1
+            if body:
+                cuts.append((sig[start].start, sig[body[0]].start, sig[body[1]].end))
+                i = body[1] + 1
+                continue
+        i += 1
+    out = []
+    pos = 0
+    for st, bo, be in cuts:
+        out.append(text[pos:st])
+        out.append('#[verifier::external_body] /* imported-lemma: proved in unit %s */ ' % home)
+        out.append(text[st:bo])
+        out.append('{ }')
+        pos = be
+    out.append(text[pos:])
+    return ''.join(out)
+
+
 def expand_includes(path, depth=0):
     root = os.path.dirname(os.path.dirname(os.path.abspath(__file__)))
     out = []
     for l in open(path).read().split('\n'):
-        inc = re.match(r'\s*//@@\s+include\s+(\S+)\s*$', l)
+        inc = re.match(r'\s*//@@\s+(include|import)\s+(\S+)(?:\s+(\S+))?\s*$', l)
         if inc:
             if depth > 5:
                 raise ExtractError('include depth exceeded at ' + path)
-            out.extend(expand_includes(os.path.join(root, inc.group(1)), depth + 1))
+            sub = expand_includes(os.path.join(root, inc.group(2)), depth + 1)
+            if inc.group(1) == 'import':
+                home = inc.group(3) or '?'
+                sub = import_lemmas('\n'.join(sub), home).split('\n')
+            out.extend(sub)
         else:
             out.append(l)
     return out
